@@ -3,6 +3,8 @@
 returning), blas::real / imag / real_doubled, on an arbitrary symbolic zero-based source view; composition with the view
 algebra (a cast of a rotated / sliced source and a view operation applied to a cast)."""
 from vlib import common, viewops, viewspec as vs
+import os
+
 from vlib.poly import Poly as P, POS, NONZERO
 
 A = viewops.A
@@ -37,6 +39,9 @@ def items(D):
     # reinterpret same size: C2 <-> std::complex<double>
     out.append(("reinterpret_array_cast<cplx>()", "C2", "v.reinterpret_array_cast<cplx>()", v, 16, 0, 1))
     out.append(("const reinterpret_array_cast<cplx>()", "C2", "std::as_const(v).reinterpret_array_cast<cplx>()", v, 16, 0, 1))
+    # reinterpret to an element twice as large (double -> C2): every stride must be even; addresses unchanged, strides halve
+    out.append(("reinterpret_array_cast<C2>() of doubles", "double", "v.reinterpret_array_cast<C2>()", v, 8, 0, "half"))
+    out.append(("const reinterpret_array_cast<C2 const>() of doubles", "double", "std::as_const(v).reinterpret_array_cast<C2 const>()", v, 8, 0, "half"))
     # static / const casts, as_const
     out.append(("static_array_cast<double const>()", "double", "v.static_array_cast<double const>()", v, 8, 0, 1))
     out.append(("as_const()", "double", "v.as_const()", v, 8, 0, 1))
@@ -54,6 +59,67 @@ def items(D):
     out.append(("sliced(a,a+w).member_cast(&S3::y)", "S3", "v.sliced(a, a + w).member_cast<double>(&S3::y)", vs.sliced(v, A("a"), A("w")), 24, 8, 3))
     out.append(("strided(t).reinterpret_array_cast<cplx>()", "C2", "v.strided(t).reinterpret_array_cast<cplx>()", None, 16, 0, 1))
     return out
+
+
+W12_PRE = r"""
+#include <boost/multi/array.hpp>
+#include <boost/multi/adaptors/blas/numeric.hpp>
+#include <complex>
+#include <type_traits>
+#include <utility>
+namespace multi = boost::multi;
+struct S3 { double x, y, z; };
+struct C2 { double re, im; };
+using cplx = std::complex<double>;
+inline double& gety(S3& s) { return s.y; }
+inline double const& getyc(S3 const& s) { return s.y; }
+template<class V> auto first_elem(V&& v) -> decltype(auto) {
+	if constexpr(std::decay_t<V>::rank_v == 1) { return std::forward<V>(v)[0]; } else { return first_elem(std::forward<V>(v)[0]); }
+}
+template<class V> using elem_t = decltype(first_elem(std::declval<V>()));
+"""
+
+# (name, array element type, expression on `a` (an lvalue array) or `ca` (const), the element must be assignable from double / cplx?, value type)
+W12_ITEMS = [
+    ("element_transformed(f) with f yielding a reference writes through", "S3", "a.element_transformed(gety)", True, "double"),
+    ("element_transformed(f) of a sub-view writes through", "S3", "a().element_transformed(gety)", True, "double"),
+    ("member_cast of a mutable array writes through", "S3", "a.template member_cast<double>(&S3::y)", True, "double"),
+    ("reinterpret_array_cast of a mutable array writes through", "C2", "a.template reinterpret_array_cast<cplx>()", True, "cplx"),
+    ("blas::real of a mutable array writes through", "cplx", "multi::blas::real(a)", True, "double"),
+    ("blas::imag of a mutable array writes through", "cplx", "multi::blas::imag(a)", True, "double"),
+]
+
+
+def w12(rep, wd, dims):
+    """type-level part of "writes through": a projection of a mutable source has an assignable element reference (read-only-ness of projections of
+    const sources is const propagation, property C16)"""
+    from vlib import witness
+    lines = [W12_PRE]
+    index = {}
+    for D in dims:
+        for name, et, expr, assignable, vt in W12_ITEMS:
+            lines.append("template<class A = multi::array<%s, %d>> constexpr bool w12_%d() { A& a = *static_cast<A*>(nullptr); A const& ca = a; (void)a; (void)ca; "
+                         "return std::is_assignable_v<elem_t<decltype(%s)>, %s> == %s; } static_assert(w12_%d(), \"W12\");"
+                         % (et, D, len(index), expr, vt, "true" if assignable else "false", len(index)))
+            index[sum(l.count("\n") + 1 for l in lines)] = (name, D)
+    tu = os.path.join(wd, "w12.cpp")
+    with open(tu, "w") as fh:
+        fh.write("\n".join(lines) + "\n")
+    rc, diags, raw = witness.compile_tu(tu)
+    failed = {}
+    for e, notes in witness.group_errors(diags):
+        line = witness.attribute(e, notes, tu)
+        if line in index:
+            failed.setdefault(line, e["msg"])
+        else:
+            rep.break_("W12 witness TU: " + e["msg"][:160])
+    for line, (name, D) in sorted(index.items()):
+        key = "W12:%s,D=%d" % (name, D)
+        if line in failed:
+            rep.violated(key, "W12", "type-level witness fails (D=%d): %s: %s" % (D, name, failed[line][:200]), dict(D=D, error=failed[line][:300]))
+        else:
+            rep.ok(key, "W12", None)
+    return len(index)
 
 
 def run(tier):
@@ -75,6 +141,9 @@ def run(tier):
             if "a + w" in expr:
                 args += ["a", "w"]
                 signs["w"] = POS
+            if scale == "half":
+                cases = [{("s%d" % k): 2 * A("h%d" % k) for k in range(D)}]
+                signs.update({("h%d" % k): POS for k in range(D)})   # positive strides only: the scaling by sizeof ratios divides nelems and stride separately
             if "strided(t)" in expr:
                 args += ["t"]
                 cases = [{"z0": A("t") * A("m")}]
@@ -92,7 +161,9 @@ def run(tier):
                 for k, d in enumerate(wv.dims):
                     w[(4 + 6 * k + 0, "first%d" % k)] = d.f
                     w[(4 + 6 * k + 1, "size%d" % k)] = d.z
-                    if scale is not None:
+                    if scale == "half":
+                        w[(4 + 6 * k + 2, "stride%d" % k)] = d.s.subst(env).divexact(P.const(2))
+                    elif scale is not None:
                         w[(4 + 6 * k + 2, "stride%d" % k)] = d.s * scale
                 return w
             cr.add("O12.%s,D=%d" % (name, D), "O12.cast", D, args, body, wants, cases=cases, signs=signs, view=True, declare=False)
@@ -131,7 +202,13 @@ def run(tier):
             body = ("auto* sb = reinterpret_cast<cplx*>(base); multi::subarray<cplx, %d> v(%s, sb); observe(%s, base, out, i0, i1, i2, i3, i4);"
                     % (D, mk(D), cexpr))
             cr.add("O12.%s,D=%d" % (nm, D), "O12.cast", D, idxargs, body, wants, cases=cases, view=True, declare=False)
-    cr.compile(nshards=8, extra_prelude=EXTRA)
+    nw = w12(rep, wd, (1, 2) if tier == "quick" else (1, 2, 3))
+    rep.need_instances("W12 witnesses", nw, 12)
+    try:
+        cr.compile(nshards=8, extra_prelude=EXTRA)
+    except common.AnalysisBroken as e:
+        rep.break_(str(e)[:600])
+        return rep
     cr.check()
     rep.need_instances("O12 obligations generated", len(rep.obligations), 250 if tier == "quick" else 500)
     rep.trusted = ["clang 14 IR generation and -O2 pipeline (normaliser)", "vlib/viewspec.py + the projection table in checks/c12.py",
